@@ -116,10 +116,12 @@ fn do_append_opt(sh: &Shared, h: &Handle, thread: u64, seq: &mut u64, bare: bool
     }
     let b0 = detsim::blocked_count(me);
     sh.hist.log(K::AppendBegin { id });
+    crate::driver::IN_APPEND.fetch_add(1, Ordering::SeqCst);
     let r = std::panic::catch_unwind(std::panic::AssertUnwindSafe(|| match &sh.tl_recorder {
         Some(rec) if !bare => metrics::with_local_recorder(rec, || h.append(id)),
         _ => h.append(id),
     }));
+    crate::driver::IN_APPEND.fetch_sub(1, Ordering::SeqCst);
     let blocked = detsim::blocked_count(me) != b0;
     sh.hist.log(K::AppendEnd { id, blocked, panicked: r.is_err() });
 }
@@ -361,6 +363,7 @@ fn queue_main(plan: &Value, slot: Arc<Mutex<Option<QueueRun>>>) {
             }
         }
     }
+    let stream_cb = stream.on_entry_next.clone();
     let recorder = CountingRecorder::default();
     let capacity = ju(plan, "capacity", 64).max(1) as usize;
     let flush_interval = ju(plan, "flush_interval_ns", 1_000_000_000).clamp(1, 59_999_999_999);
@@ -417,6 +420,36 @@ fn queue_main(plan: &Value, slot: Arc<Mutex<Option<QueueRun>>>) {
         flush_while_parked: AtomicU64::new(0),
     });
     let writer_tid = *sh.writer_tid.lock().unwrap();
+
+    // re-entrant use of the queue from inside its own collaborators (ids in their own spaces)
+    thread_local! {
+        static NESTED: std::cell::Cell<bool> = const { std::cell::Cell::new(false) };
+    }
+    let on_next_cb = stream_cb;
+    if let Some(at) = plan.get("append_from_next_at").and_then(|x| x.as_u64()) {
+        // the stream appends one entry to the very queue that is writing to it, from inside `next`
+        let (sh2, h2) = (sh.clone(), handle.clone());
+        let seq = AtomicU64::new(0);
+        on_next_cb.set(move |idx: u64| {
+            if idx == at {
+                let mut s = seq.fetch_add(1, Ordering::SeqCst);
+                do_append(&sh2, &h2, 600, &mut s);
+            }
+        });
+    }
+    if jb(plan, "recorder_reenters", false) {
+        // the metrics recorder reports its own activity through the same queue: one nested
+        // append per overflow report (never nested further)
+        let (sh2, h2) = (sh.clone(), handle.clone());
+        let seq = AtomicU64::new(0);
+        recorder.0.on_increment.set(move |name: String| {
+            if name.starts_with("metrique_queue_overflows") && !NESTED.with(|n| n.replace(true)) {
+                let mut s = seq.fetch_add(1, Ordering::SeqCst);
+                do_append(&sh2, &h2, 700, &mut s);
+                NESTED.with(|n| n.set(false));
+            }
+        });
+    }
 
     // producers
     let mut normal = vec![];
@@ -475,6 +508,7 @@ fn queue_main(plan: &Value, slot: Arc<Mutex<Option<QueueRun>>>) {
     }
     sh.stop.store(true, Ordering::SeqCst);
     detsim::unblock(ctl.next_key);
+    recorder.0.on_increment.clear();
     for t in pressure {
         let _ = t.join();
     }
@@ -527,6 +561,7 @@ fn queue_main(plan: &Value, slot: Arc<Mutex<Option<QueueRun>>>) {
         }
     }
     let fin = writer_tid.map(detsim::thread_finished).unwrap_or(true);
+    on_next_cb.clear();
     sh.held.lock().unwrap().clear();
     let run = QueueRun {
         hist: hist.snapshot(),
@@ -1249,7 +1284,39 @@ pub fn check_c09(plan: &Value, run: &QueueRun, d: &Digest) -> Option<Violation> 
     None
 }
 
+/// A completely stalled writer and well over a thousand displaced entries in one go.
+fn gen_c09_long_stall(rng: &mut Rng) -> Value {
+    let cap = 1 + rng.below(4);
+    let n = 1_100 + rng.below(500);
+    let sched = gen_sched(rng, &SchedOpts { est_choices: 12 * n, threads: 2, jump_max_ns: 0, stall_clock_max_ns: 0, max_steps: 120_000 });
+    json!({
+        "scenario": "queue_overflow",
+        "sched": sched,
+        "boxed": rng.chance(0.4),
+        "capacity": cap,
+        "flush_interval_ns": 1_000_000_000u64,
+        "shutdown_timeout_ns": 1_000_000_000_000_000u64,
+        "recorder": true,
+        "recorder_kind": "local",
+        "next_cost_ns": 0,
+        "gate": 0,
+        "script": [],
+        "report_res": "O",
+        "flush_fail": [],
+        "producers": [[{"op":"append","n": n}]],
+        "main_ops": [],
+        "pre_end": [{"op":"gate_open"}],
+        "end": "drop",
+        "end_before_join": false,
+        "post": [],
+        "stalled_single": true,
+    })
+}
+
 pub fn gen_c09(rng: &mut Rng, _tier: Tier) -> Value {
+    if rng.chance(0.01) {
+        return gen_c09_long_stall(rng);
+    }
     let cap = 1 + rng.below(8);
     let stalled_single = rng.chance(0.25);
     let np = if stalled_single { 1 } else { 1 + rng.below(3) };
@@ -1307,6 +1374,9 @@ pub fn gen_c09(rng: &mut Rng, _tier: Tier) -> Value {
         "shutdown_timeout_ns": 1_000_000_000_000_000u64,
         "recorder": rng.chance(0.85),
         "recorder_kind": recorder_kind,
+        // the queue used from inside its own collaborators
+        "recorder_reenters": recorder_kind == "local" && !stalled_single && rng.chance(0.15),
+        "append_from_next_at": if !stalled_single && rng.chance(0.12) { json!(rng.below(total.max(1))) } else { Value::Null },
         "next_cost_ns": *rng.pick(&[0u64, 1_000, 300_000]),
         "gate": gate0,
         "script": if rng.chance(0.2) { Value::Array(gen_script(rng, &[6, 6, 6], 0.2)) } else { json!([]) },
@@ -1453,7 +1523,58 @@ pub fn check_c04(plan: &Value, run: &QueueRun, d: &Digest) -> Option<Violation> 
     None
 }
 
+/// A backlog of several hundred entries in front of the flush request (capacity up to 1024):
+/// whatever batching the writer does internally, the request completes only behind all of them.
+fn gen_c04_big_backlog(rng: &mut Rng) -> Value {
+    let cap = 400 + rng.below(700);
+    let n = 260 + rng.below((cap - 260).min(500));
+    let next_cost = *rng.pick(&[0u64, 1_000, 20_000]);
+    let flush_interval = *rng.pick(&[1_000_000u64, 50_000_000, 1_000_000_000, 59_000_000_000]);
+    let mut ops = vec![];
+    let mut left = n;
+    while left > 0 {
+        let k = (1 + rng.below(left.min(200))).min(left);
+        ops.push(json!({"op":"append","n":k}));
+        left -= k;
+    }
+    ops.push(json!({"op":"flush","mode":"await"}));
+    ops.push(json!({"op":"append","n": 1 + rng.below(40)}));
+    ops.push(json!({"op":"flush","mode":"await"}));
+    let mut main_ops = vec![];
+    for _ in 0..(1 + rng.below(3)) {
+        main_ops.push(json!({"op":"sleep","ns": rel_sleep(rng, flush_interval.min(1_000_000_000))}));
+        main_ops.push(json!({"op":"gate","n": 1 + rng.below(300)}));
+    }
+    main_ops.push(json!({"op":"gate_open"}));
+    let sched = gen_sched(rng, &SchedOpts { est_choices: 200 + n * 8, threads: 3, jump_max_ns: 0, stall_clock_max_ns: 0, max_steps: 200_000 });
+    json!({
+        "scenario": "queue_flush_barrier",
+        "sched": sched,
+        "boxed": rng.chance(0.5),
+        "capacity": cap,
+        "flush_interval_ns": flush_interval,
+        "shutdown_timeout_ns": 1_000_000_000_000_000u64,
+        "recorder": true,
+        "next_cost_ns": next_cost,
+        "gate": *rng.pick(&[0i64, 0, 1, 40]),
+        "script": [],
+        "report_res": "O",
+        "flush_fail": [],
+        "producers": [ops],
+        "main_ops": main_ops,
+        "pre_end": [{"op":"gate_open"}],
+        "end": "drop",
+        "end_before_join": false,
+        "post": [],
+        "sustained": false,
+        "big_backlog": true,
+    })
+}
+
 pub fn gen_c04_safety(rng: &mut Rng, _tier: Tier) -> Value {
+    if rng.chance(0.06) {
+        return gen_c04_big_backlog(rng);
+    }
     let sustained = rng.chance(0.5);
     let cap = if sustained { 33 + rng.below(32) } else { 1 + rng.below(40) };
     let next_cost = *rng.pick(&[1_000u64, 20_000, 300_000]);
